@@ -90,6 +90,14 @@ def run(ctx):
     missing_ = [x for x in need if x not in cleared]
     ctx.ob("C17.MAND", pr, "per-zone state required at END:VTIMEZONE (%s) is reset at every BEGIN:VTIMEZONE" % ", ".join(need), bool(need) and not missing_,
            construct="BEGIN:VTIMEZONE resets", detail="" if not missing_ else "not reset: %s" % missing_, analysis="must-hold branch facts: required-at-end vs assigned-at-begin")
+    # the component kind that is stored is the text that was validated, and DAYLIGHT is recognised from that same text
+    kinds = [n for n in cfg.live_nodes() if n.kind == "stmt" and isinstance(n.ast, ast.Assign) and len(n.ast.targets) == 1 and isinstance(n.ast.targets[0], ast.Name)
+             and isinstance(n.ast.value, ast.Name) and any(tv and t.replace('"', "'") in ("name == 'BEGIN'", "'BEGIN' == name") for t, tv in facts.at(n))
+             and not any(tv and "VTIMEZONE" in t for t, tv in facts.at(n))]
+    okk = len(kinds) == 1 and any(tv and t.replace('"', "'").replace(" ", "") == "%sin('STANDARD','DAYLIGHT')" % kinds[0].ast.value.id for t, tv in facts.at(kinds[0]))
+    ctx.ob("C17.MAND", pr, "the component kind stored at BEGIN is exactly the validated text (STANDARD / DAYLIGHT as written: the daylight flag compares that text later)", okk,
+           construct="component kind validation", detail="" if okk else ("facts: %s" % sorted(t for t, tv in facts.at(kinds[0]) if tv)[:5] if kinds else "kind assignment not found"),
+           analysis="must-hold branch facts")
     rrs = [x for x in walk_local(pr.node) if isinstance(x, ast.Call) and src(x.func) == "rrule.rrulestr"]
     kw = {k.arg: src(k.value) for k in rrs[0].keywords} if rrs else {}
     ctx.ob("C17.MAND", pr, "recurrence lines are parsed with rrulestr(compatible=True, ignoretz=True, cache=True) (DTSTART becomes an occurrence; naive wall times)",
